@@ -208,7 +208,7 @@ theorem exec_body (body : List Op) (hb : ∀ op ∈ body, op.isBody = true) (h0 
       | sameFile => simp [Op.isBody] at hop
       | openRead _ => simp [Op.isBody] at hop
       | mkTemp _ => simp [Op.isBody] at hop
-      | openWrite _ => simp [Op.isBody] at hop
+      | openWrite _ _ => simp [Op.isBody] at hop
       | close => simp [Op.isBody] at hop
       | replace _ => simp [Op.isBody] at hop
 
